@@ -23,7 +23,7 @@ open MpycV.Fxp
 structure F where
   S : V
   E : Int
-  deriving Repr
+  deriving DecidableEq, Repr
 
 /-- bit `i` of the two's complement representation of `x` (`to_bits`: low to high) -/
 def bitAt (x : Int) (i : Nat) : Int := (x / (2 : Int) ^ i) % 2
@@ -52,24 +52,36 @@ def mul (t : Ty) (a b : F) (r : Rnd) : F :=
   let cS := ofBit t.f c
   ⟨ifElse t cS s (mulInt s 2), c * (e - (e - 1)) + (e - 1)⟩     -- if_else(c_s, s, s*2), if_else(c_e, e, e-1)
 
-/-- ≙ sectypes.py:802-832; `r1`: randomness of the truncation in `s2 * d2`, `r2`: of `s * N` -/
-def add (t : Ty) (a b : F) (r1 r2 : Rnd) : F :=
+/-- ≙ sectypes.py:814-823: exponent comparison, swap, alignment; returns the sum `s = s1 + s2 * 2^-d` of the
+aligned significands and the larger exponent; `r1`: randomness of the truncation in `s2 * d2` -/
+def addAlign (t : Ty) (a b : F) (r1 : Rnd) : V × Int :=
   let f := t.f
-  let l := t.l
   let ce : Int := if a.E < b.E then 1 else 0                   -- c_e = e1 < e2
   let e1 := a.E + ce * (b.E - a.E)                              -- if_swap(c_e, e1, e2)
   let e2 := b.E - ce * (b.E - a.E)
   let (s1, s2) := ifSwap t (ofBit f ce) a.S b.S                 -- if_swap(c_s, s1, s2)
   let d := (min (e1 - e2) (f : Int)).toNat                      -- d = min(e1 - e2, f), 0 <= d <= f
   let d2 : V := ⟨(2 : Int) ^ (f - d), false⟩                     -- in_prod(unit_vector(d), [2**-i]) = 2^-d, flag False
-  let s := Fxp.add s1 (mulSS t s2 d2 r1)                        -- s = s1 + s2 * d2
-  let sA := norm t.p s.A
-  let b := bitAt sA (l - 1)                                     -- sign bit
-  let i := findIdx sA (1 - b) (l - 1) 0                         -- find(x reversed without sign, 1-b)
-  let N : V := ⟨(2 : Int) ^ i * (2 : Int) ^ f, true⟩             -- N = 2^i as integral fixed-point number
-  let N' := mulFloat t N ⟨1, (f : Int) - ((l : Int) - 1)⟩ ([], 0)  -- N * 2**(f-(l-1))
-  let n : Int := (i : Int) + ((f : Int) - ((l : Int) - 1))
-  ⟨mulSS t s N' r2, e1 - n⟩
+  (Fxp.add s1 (mulSS t s2 d2 r1), e1)                           -- s = s1 + s2 * d2
+
+/-- ≙ sectypes.py:825-829: `find(x reversed without the sign bit, 1 - b)` on the bits of `sA` -/
+def leadIdx (t : Ty) (sA : Int) : Nat :=
+  findIdx sA (1 - bitAt sA (t.l - 1)) (t.l - 1) 0
+
+/-- ≙ sectypes.py:829-830: `N * 2**(f-(l-1))` for the integral fixed-point number `N = 2^i` -/
+def normFactor (t : Ty) (i : Nat) : V :=
+  mulFloat t ⟨(2 : Int) ^ i * (2 : Int) ^ t.f, true⟩ ⟨1, (t.f : Int) - ((t.l : Int) - 1)⟩ ([], 0)
+
+/-- ≙ sectypes.py:824-832: renormalisation of the sum; `r2`: randomness of the truncation in `s * N` -/
+def addNorm (t : Ty) (s : V) (e1 : Int) (r2 : Rnd) : F :=
+  let i := leadIdx t (norm t.p s.A)
+  let n : Int := (i : Int) + ((t.f : Int) - ((t.l : Int) - 1))  -- n + (f - (l-1))
+  ⟨mulSS t s (normFactor t i) r2, e1 - n⟩
+
+/-- ≙ sectypes.py:802-832 -/
+def add (t : Ty) (a b : F) (r1 r2 : Rnd) : F :=
+  let (s, e1) := addAlign t a b r1
+  addNorm t s e1 r2
 
 def sub (t : Ty) (a b : F) (r1 r2 : Rnd) : F := add t a (neg b) r1 r2
 
